@@ -445,13 +445,14 @@ Section generic.
     { destruct (P_ok _ HI 0) as (m' & Hc' & Hg'). congruence. }
     assert (Hsegok : ∀ s, In s (m_segs m) → seg_ok (w_store w) m s).
     { intros s Hs. destruct Hg as [Hf _]. rewrite Forall_forall in Hf. by apply Hf, elem_of_list_In. }
-    apply read_segs_ok in Hr as (Ha & Hmi & Hmap); [|done|].
+    apply read_segs_ok in Hr as (act & Hact & Ha & Hmi & Hmap); [|done|].
     2: { intros s Hs. rewrite Hs1. by destruct (Hsegok s (select_sub _ _ _ Hs)) as (_ & _ & H). }
     simpl in Ha, Hmi, Hmap. rewrite Hs1 in Hmap.
-    set (sel := select c m) in *. set (st := w_store w) in *.
-    assert (Hselkey : ∀ s, In s sel → si_key s = NSeg (si_id s) ∧ si_id s < m_next m).
-    { intros s Hs. destruct (Hsegok s (select_sub _ _ _ Hs)) as (H1 & H2 & _). auto. }
-    assert (Hnotdel : ∀ k, (∀ s', In s' sel → k ≠ NSeg (si_id s')) → ¬ In k (map si_key (ca_actual a))).
+    set (st := w_store w) in *.
+    assert (Hsub : ∀ s, In s act → In s (m_segs m)) by (intros s Hs; apply (select_sub c), Hact, Hs).
+    assert (Hselkey : ∀ s, In s act → si_key s = NSeg (si_id s) ∧ si_id s < m_next m).
+    { intros s Hs. destruct (Hsegok s (Hsub s Hs)) as (H1 & H2 & _). auto. }
+    assert (Hnotdel : ∀ k, (∀ s', In s' act → k ≠ NSeg (si_id s')) → ¬ In k (map si_key (ca_actual a))).
     { intros k Hk Hin. rewrite Ha in Hin. apply in_map_iff in Hin as (s' & Hks & Hs').
       destruct (Hselkey s' Hs') as [Hk' _]. apply (Hk s' Hs'). congruence. }
     assert (Hkeepdel : ∀ s, In s (m_segs m) → ¬ In (si_id s) (map si_id (ca_actual a)) →
@@ -473,8 +474,8 @@ Section generic.
       destruct (delete_all w3 _) as [w4 dead] eqn:Hd.
       pose proof (delete_all_spec _ _ _ _ Hd) as Hk4.
       intros Hfin. assert (w' = w4) as -> by (by destruct dead; injection Hfin). clear Hfin.
-      eapply (P_install st _ m _ sel [] [] HI0 Hm1); simpl.
-      + apply select_sub.
+      eapply (P_install st _ m _ act [] [] HI0 Hm1); simpl.
+      + exact Hsub.
       + by rewrite <- Hmap, Hout.
       + rewrite Hk4; [by apply Hok3|]. apply Hnotdel. intros; discriminate.
       + reflexivity.
@@ -517,8 +518,8 @@ Section generic.
       intros Hfin. assert (w' = w5) as -> by (by destruct dead; injection Hfin). clear Hfin.
       assert (Hnewkey : ¬ In (NSeg (m_next m)) (map si_key (ca_actual a))).
       { apply Hnotdel. intros s' Hs' [= Heq]. destruct (Hselkey s' Hs') as [_ Hlt]. lia. }
-      eapply (P_install st _ m _ sel [seg] out HI0 Hm1); simpl.
-      + apply select_sub.
+      eapply (P_install st _ m _ act [seg] out HI0 Hm1); simpl.
+      + exact Hsub.
       + by rewrite <- Hmap, Hout.
       + rewrite Hk5; [by apply Hok4|]. apply Hnotdel. intros; discriminate.
       + reflexivity.
@@ -739,3 +740,24 @@ Proof.
     rewrite E. apply kl_coherent.
   - vm_compute in Hr. injection Hr as <-. vm_compute. reflexivity.
 Qed.
+
+(* a read of an input segment that arrives damaged (object at rest intact): the segment is
+   skipped, stays listed and on the store; nothing is lost *)
+Definition gb_store : gmap name (sobj obj) :=
+  <[NMan := Whole (OMan (Manifest 3 1 [SegInfo 0 (NSeg 0) 1 100 5 5; SegInfo 1 (NSeg 1) 1 100 6 6;
+                                       SegInfo 2 (NSeg 2) 1 100 7 7] None 3))]>
+   (<[NSeg 0 := Whole (OSeg [dlt 1 7 5 1])]>
+   (<[NSeg 1 := Whole (OSeg [dlt 2 8 6 1])]>
+   (<[NSeg 2 := Whole (OSeg [dlt 3 9 7 1])]> ∅))).
+Definition gb_io : list outcome := [OOk; OErr EGarble] ++ oks.
+
+Lemma garbled_read_example :
+  let '(w, r) := compact repaired kl_cc 0 100 (World gb_store gb_io [] false) in
+  r = COk [1; 2] (Some 3) ∧
+  map fst (rev (w_log w)) = [CGet NMan; CGet (NSeg 0); CGet (NSeg 1); CGet (NSeg 2); CPut (NSeg 3);
+                             CPut NTmp; CRename NTmp NMan; CDelete (NSeg 1); CDelete (NSeg 2)] ∧
+  match recover gb_store 1 with
+  | Some rec => map sig_of (r_deltas rec) = [(1, 5); (2, 6); (3, 7)] | None => False end ∧
+  match recover (w_store w) 1 with
+  | Some rec => map sig_of (r_deltas rec) = [(1, 5); (2, 6); (3, 7)] | None => False end.
+Proof. vm_compute. repeat split. Qed.
